@@ -105,13 +105,15 @@ pub mod trav_proofs {
         let mut ctx = mk_ctx(tag, 0);
         ctx.items[X].fl.blocklisted = true; ctx.items[1].fl.blocklisted = false; ctx.items[2].fl.blocklisted = false;
         ctx.options.codegen_config = CodegenConfig { bits: 63 };
-        let mut roots: Vec<ItemId> = Vec::new(); roots.push(ItemId(X));
-        let mut t = AllowlistedItemsTraversal::new(&ctx, roots, all_edges);
-        let e = traced(&ctx);
-        let mut reach = [false; NI]; let mut i = 0; while i < NI { let mut k = 0; while k < NK { if e[i][k] { reach[i] = true; } k += 1; } i += 1; }
-        let mut yielded = [false; NI]; let mut r = 0;
-        while r < NI { match t.next() { Some(id) => { assert!(id != ItemId(X), "a blocklisted item was yielded for code generation"); yielded[id.0] = true; } None => {} } r += 1; }
-        let mut i = 1; while i < X { assert!(yielded[i] == reach[i], "items referred to by a blocklisted item must still be generated (and nothing else)"); i += 1; }
+        let mut t = AllowlistedItemsTraversal::new(&ctx, [ItemId(X)], all_edges);
+        let mut reach = [false; NI];
+        ctx.items[X].trace(&ctx, &mut |sub: ItemId, _kind: EdgeKind| { reach[sub.0] = true; }, &());
+        // one call of the wrapper: it must skip X itself, but X has been traversed, so everything X refers to is recorded and queued
+        let first = t.next();
+        assert!(first != Some(ItemId(X)), "a blocklisted item was yielded for code generation");
+        let mut any = false;
+        let mut i = 1; while i < X { if reach[i] { any = true; assert!(t.traversal.seen.contains(&ItemId(i)), "what a blocklisted item refers to must still be reached"); } else { assert!(!t.traversal.seen.contains(&ItemId(i)), "an unrelated item was reached"); } i += 1; }
+        match first { Some(id) => assert!(id.0 < X && reach[id.0], "the wrapper yielded something the blocklisted item does not refer to"), None => assert!(!any && !reach[0], "the references of a blocklisted item were dropped") }
         core::mem::forget(t); core::mem::forget(ctx);
     }
     #[kani::proof] fn codegen_edges_table() {
